@@ -7,6 +7,8 @@ numeric equality of recomputed values is trusted to determinism."""
 import ast
 from fractions import Fraction as Fr
 from svtstatic.cfg import CFG, EXIT, ENTRY, RAISE, describe, guards_of, walk_no_nested, enclosing_stmt
+from svtstatic.values import Closure
+from svtstatic.model import AnchorMissing
 from .common import *
 
 PROPERTY = 'C16'
@@ -137,7 +139,11 @@ def run(ctx):
                       'constant-index reads of the store are guarded by an emptiness test', 5)
     ctx.rule('R16.3', 'every cache hit is keyed: control-dependent on key equality and, where tolerances are '
                       'parameters, on guards of the right direction; fills write value and all key fields', 6)
-    ctx.rule('R16.4', 'every read of _length/_lengths in Path is dominated by a call of _calc_lengths', 4)
+    ctx.rule('R16.4', 'every read of _length/_lengths in Path is dominated by a call of a method that (decided by interpretation from the '
+                      'invalidated state) leaves a correct table behind; point/T2t/t2T/length on an invalidated path do not depend on what '
+                      'was left in _lengths', 4)
+    ctx.rule('R16.10', 'primitive mutators (__setitem__, __delitem__, insert, overridden mixins, start/end setters) run from a consistent '
+                       'populated state on all index shapes and path sizes: no stale length table, cached end points == new end points', 5)
     ctx.rule('R16.5', 'a cache object shared with a copy is re-keyed to the copy\'s control points in ctor order', 2)
     ctx.rule('R16.6', 'no statement outside the owning class writes the private cache/store fields', 1)
     ctx.rule('R16.7', 'fields read by __hash__ are a subset of those compared by __eq__; __eq__ compares the '
@@ -163,6 +169,16 @@ def run(ctx):
     else:
         raise AnchorMissing('path.Path._parse_path')
 
+    # ------------------------------------------------------------------ R16.10 semantic post-state of the primitive mutators
+    sem = _semantic_mutators(ctx, mdl, PathC)
+    for label, probs in sorted(sem.items()):
+        fi_ = PathC.setters[label.split(':')[0]] if label.endswith(':setter') else PathC.methods[label]
+        if None in probs:
+            ctx.undecided('R16.10', fi_.qualname, 'post-state of %s' % label, 'a case left the interpretable fragment', where=where(fi_))
+        else:
+            ctx.record('R16.10', 'path.Path.' + label, 'post-state of %s' % label, not probs, detail=' | '.join(probs[:4]), where=where(fi_))
+    verified = {label for label, probs in sem.items() if probs == []}
+
     # ------------------------------------------------------------------ R16.1 / R16.2
     n_sites = 0
     for fi in sorted(PathC.all_funcs(), key=lambda f: f.line):
@@ -186,7 +202,11 @@ def run(ctx):
                 if pre and not _recompute_between(cfg, inv, st):
                     ok = True
             detail = ''
-            if not ok:
+            semlabel = fi.name + (':setter' if label.endswith(':setter') else '')
+            if not ok and semlabel in verified:
+                ok = True      # the statement-level argument is inconclusive (e.g. correlated guards in helpers); R16.10 decided the method
+                detail = 'discharged by R16.10 (post-state of %s verified by interpretation)' % semlabel
+            elif not ok:
                 p = cfg.path(st, EXIT, avoid=inv)
                 detail = 'path to exit without `self._length = None`: ' + ' -> '.join(describe(x) for x in (p or []))
             ctx.record('R16.1', label, construct, ok, detail=detail, where=where(fi, st),
@@ -197,6 +217,8 @@ def run(ctx):
                 good = cfg.must_pass(st, EXIT, sts) or (sts and cfg.dominated_by(st, set(sts)) and _is_setter_of(fi, nm))
                 if kind == 'element-field-store' and not _touches_end(st, nm):
                     good = True   # e.g. `self._segments[0].start = pt` cannot change the path's end
+                if not good and semlabel in verified:
+                    good = True
                 if not good:
                     p = cfg.path(st, EXIT, avoid=sts)
                     miss.append('%s not refreshed on: %s' % (nm, ' -> '.join(describe(x) for x in (p or []))))
@@ -223,7 +245,10 @@ def run(ctx):
         fi = mdl.func('path.%s.length' % cname)
         _check_length_info_cache(ctx, fi, keyparams, kinds, cname)
     _check_arc_cache(ctx, mdl.func('path.Arc.length'))
-    _check_path_cache(ctx, mdl.func('path.Path._calc_lengths'), kinds)
+    ensurers, writers = _ensurers(ctx, mdl, PathC)
+    if not ensurers:
+        raise AnchorMissing('no method of Path rebuilds the length table from the invalidated state')
+    _path_cache_tolerances(ctx, mdl, PathC, ensurers, kinds)
 
     # ------------------------------------------------------------------ R16.9 every memo on a mutable segment is keyed
     ctx.rule('R16.9', 'segment classes: an attribute stored outside __init__ (a memo) is only read under a guard on the current control '
@@ -262,8 +287,12 @@ def run(ctx):
                    detail='; '.join(bad[:3]), where=where(init), sample={'memo_attributes': sorted(memos)})
 
     # ------------------------------------------------------------------ R16.4 reads after compute
+    ctx.extra['table_builders'] = sorted(ensurers)
     for fi in sorted(PathC.all_funcs(), key=lambda f: f.line):
-        if fi.name in ('__init__', '_calc_lengths'):
+        if fi.name == '__init__' or fi.name in writers:
+            continue
+        # helpers that were entered while another builder was verified are covered by that verification
+        if any(fi.name in entered and other != fi.name for other, entered in ensurers.items()):
             continue
         reads = [n for n in walk_no_nested(fi.node) if isinstance(n, ast.Attribute) and isinstance(n.ctx, ast.Load)
                  and self_attr(n) and n.attr in ('_length', '_lengths')]
@@ -271,16 +300,15 @@ def run(ctx):
             continue
         cfg = CFG(fi.node)
         calls = {enclosing_stmt(n) for n in walk_no_nested(fi.node) if isinstance(n, ast.Call)
-                 and isinstance(n.func, ast.Attribute) and n.func.attr == '_calc_lengths' and
+                 and isinstance(n.func, ast.Attribute) and n.func.attr in ensurers and
                  isinstance(n.func.value, ast.Name) and n.func.value.id == 'self'}
         for r in reads:
             st = enclosing_stmt(r)
-            ok = cfg.dominated_by(st, calls) and st not in calls or (st in calls and False)
-            if st in calls:
-                ok = False
+            ok = cfg.dominated_by(st, calls) and st not in calls
             ctx.record('R16.4', fi.qualname, 'read %s @%s' % (r.attr, norm(st).split('\n')[0][:60]), ok,
-                       detail='' if ok else 'read of self.%s not dominated by self._calc_lengths()' % r.attr,
+                       detail='' if ok else 'read of self.%s not dominated by a call of a method that rebuilds the table (%s)' % (r.attr, ', '.join(sorted(ensurers))),
                        where=where(fi, st))
+    _semantic_readers(ctx, mdl, PathC)
 
     # ------------------------------------------------------------------ R16.5 shared caches
     for cname in ('QuadraticBezier', 'CubicBezier'):
@@ -721,3 +749,253 @@ def _check_eq_hash(ctx, mdl, cls):
         rets = [n for n in ast.walk(ne.node) if isinstance(n, ast.Return) and n.value is not None and norm(n.value) != 'NotImplemented']
         ok = bool(rets) and all(norm(r.value) in ('not self == other', 'not (self == other)', 'not self.__eq__(other)') for r in rets)
         ctx.record('R16.7', q, '__ne__ negates __eq__', ok, detail='' if ok else '__ne__ returns %s' % [norm(r.value) for r in rets], where=where(ne))
+
+
+# ------------------------------------------------------------------------------------------------
+# semantic rules for Path's caches (robust against helper extraction / renaming: nothing below depends on the NAME of the
+# method that fills the table or on the shape of the statements that refresh the end points)
+def _sym_path(it, n, length='stale', ends='true'):
+    segs = [it.construct('path.Line', Rat.csym('A%d' % k), Rat.csym('B%d' % k)) for k in range(n)]
+    p = it.construct('path.Path', *segs)
+    if length == 'stale':          # a table that WAS right before the mutation under test
+        p.attrs['_length'] = Rat.sym('LSTALE')
+        p.attrs['_lengths'] = [Rat.sym('GSTALE%d' % k) for k in range(n)]
+        p.attrs['_length_tol'] = (Rat.const(0), Rat.const(1000))
+    elif length == 'invalid':      # invalidated: _length is None, the rest is whatever was left behind
+        p.attrs['_length'] = None
+        p.attrs['_lengths'] = [Rat.sym('GSTALE%d' % k) for k in range(n)]
+        p.attrs['_length_tol'] = (Rat.const(0), Rat.const(1000))
+    p.attrs['_start'] = segs[0].attrs['start'] if segs else None
+    p.attrs['_end'] = segs[-1].attrs['end'] if segs else None
+    return p, segs
+
+
+def _mentions_symbol(v, needle, depth=0):
+    if depth > 6:
+        return False
+    if isinstance(v, Rat):
+        return needle in v.key()
+    if isinstance(v, (list, tuple)):
+        return any(_mentions_symbol(x, needle, depth + 1) for x in v)
+    if isinstance(v, dict):
+        return any(_mentions_symbol(x, needle, depth + 1) for x in v.values())
+    return False
+
+
+def _post_state_problems(p):
+    segs = p.attrs['_segments']
+    probs = []
+    ln = p.attrs.get('_length')
+    if ln is not None and (_mentions_symbol(ln, 'LSTALE') or _mentions_symbol(p.attrs.get('_lengths'), 'GSTALE')):
+        probs.append('the length table of the old segment list survives (_length = %s)' % short(ln, 30))
+    for nm, exp in (('_start', segs[0].attrs['start'] if segs else None), ('_end', segs[-1].attrs['end'] if segs else None)):
+        v = p.attrs.get(nm)
+        if v is None:
+            continue       # the getters re-read the store when the cached end point is None
+        if exp is None:
+            probs.append('%s keeps %s on an emptied path' % (nm, short(v, 30)))
+        elif not to_rat(v).equals(to_rat(exp)):
+            probs.append('%s is %s, but the path now %s at %s' % (nm, short(v, 30), 'starts' if nm == '_start' else 'ends', short(exp, 30)))
+    return probs
+
+
+def _semantic_mutators(ctx, mdl, PathC):
+    """every primitive mutator, from a consistent populated state, for index shapes 0 / middle / last / negative / out of range /
+    slices and for paths of 3, 1 and 0 segments: afterwards the length table is gone (or rebuilt) and the cached end points are
+    those of the new segment list (None on an empty path).  -> {method label: [problems]} (missing: not decided)"""
+    own = getattr(PathC, 'own_methods', PathC.methods)
+    cases = []
+    for n, idx in ((3, 0), (3, 1), (3, 2), (3, -1), (3, -3), (1, 0), (1, -1)):
+        cases.append(('__setitem__', n, (idx, 'NEW')))
+        cases.append(('__delitem__', n, (idx,)))
+    cases += [('__setitem__', 3, (slice(0, 1), ['NEW'])), ('__setitem__', 3, (slice(2, 3), ['NEW'])), ('__setitem__', 3, (slice(None), ['NEW'])),
+              ('__delitem__', 3, (slice(None),)), ('__delitem__', 3, (slice(0, 1),)), ('__delitem__', 3, (slice(2, None),))]
+    for n, idx in ((3, 0), (3, 1), (3, 3), (3, -1), (3, -5), (3, 10), (0, 0), (0, 5), (1, 0), (1, 1)):
+        cases.append(('insert', n, (idx, 'NEW')))
+    for nm, n, args in (('append', 3, ('NEW',)), ('append', 0, ('NEW',)), ('extend', 3, (['NEW'],)), ('extend', 0, (['NEW'],)), ('pop', 3, ()), ('pop', 3, (0,)),
+                        ('pop', 1, ()), ('reverse', 3, ()), ('clear', 3, ()), ('remove', 3, ('SEG0',)), ('remove', 1, ('SEG0',)), ('__iadd__', 3, (['NEW'],))):
+        if nm in own:          # the class overrides a MutableSequence mixin
+            cases.append((nm, n, args))
+    for prop in ('start', 'end'):
+        if prop in PathC.setters:
+            cases += [(prop + ':setter', 3, ('PT',)), (prop + ':setter', 1, ('PT',))]
+    out = {}
+    for meth, n, args in cases:
+        def th(it, meth=meth, n=n, args=args):
+            p, segs = _sym_path(it, n)
+            new = it.construct('path.Line', Rat.csym('NA'), Rat.csym('NB'))
+            conv = {'NEW': new, 'PT': Rat.csym('PT')}
+            a = []
+            for x in args:
+                if x == ['NEW']:
+                    a.append([new])
+                elif x == 'SEG0':
+                    a.append(segs[0])
+                elif isinstance(x, str):
+                    a.append(conv[x])
+                else:
+                    a.append(x)
+            if meth.endswith(':setter'):
+                f = PathC.setters[meth.split(':')[0]]
+                it.call_closure(Closure(f, f.node, None, f.module, p, PathC), a, {})
+                extra = []
+                seg = p.attrs['_segments'][0 if meth.startswith('start') else -1]
+                if not to_rat(seg.attrs['start' if meth.startswith('start') else 'end']).equals(Rat.csym('PT')):
+                    extra.append('the end segment does not take the new point')
+                return _post_state_problems(p) + extra
+            it.call_method(p, meth, *a)
+            return _post_state_problems(p)
+        label = meth
+        try:
+            paths = explore(mdl, th, {})
+        except Undecidable as e:
+            out.setdefault(label, []).append(None)
+            continue
+        for pth in paths:
+            if pth.raised is not None:
+                continue          # e.g. IndexError for an index out of range: nothing was mutated observably? checked by the structural rule
+            if pth.value:
+                out.setdefault(label, []).append('%s%r on %d segment(s): %s' % (meth, tuple(args), n, '; '.join(pth.value)))
+        out.setdefault(label, [])
+    return out
+
+
+def _ensurers(ctx, mdl, PathC):
+    """methods of Path callable without arguments that, from the invalidated state, leave a correct length table behind
+    -> ({name: set of Path methods entered}, writers)"""
+    writers = set()
+    selfcalls = {}
+    for name, fi in PathC.methods.items():
+        selfcalls[name] = {n.func.attr for n in walk_no_nested(fi.node) if isinstance(n, ast.Call) and isinstance(n.func, ast.Attribute)
+                           and isinstance(n.func.value, ast.Name) and n.func.value.id == 'self'}
+        for n in walk_no_nested(fi.node):
+            if isinstance(n, ast.Assign) and any(self_attr(t, '_length') for t in n.targets) and not is_none(n.value):
+                writers.add(name)
+    reach = set(writers)
+    changed = True
+    while changed:
+        changed = False
+        for name, cs in selfcalls.items():
+            if name not in reach and cs & reach:
+                reach.add(name)
+                changed = True
+    found = {}
+    for name in sorted(reach):
+        fi = PathC.methods[name]
+        a = fi.node.args
+        if name == '__init__' or len(a.args) - 1 > len(a.defaults) or a.vararg is not None:
+            continue
+
+        def th(it, name=name):
+            p, segs = _sym_path(it, 3, length='invalid')
+            from svtstatic import poly as _p
+            _p.POSITIVE.update({'LEN0', 'LEN1', 'LEN2'})
+            it.call_hooks['path.Line.length'] = lambda it2, aa, kk: Rat.sym('LEN%d' % [i for i, x in enumerate(segs) if x is aa[0]][0])
+            it.call_method(p, name)
+            return p, set(it.called)
+        try:
+            paths = explore(mdl, th, {})
+        except (Undecidable, PyRaise, AnchorMissing):
+            continue
+        ok = bool(paths)
+        entered = set()
+        tot = Rat.sym('LEN0') + Rat.sym('LEN1') + Rat.sym('LEN2')
+        for pth in paths:
+            if pth.raised is not None:
+                ok = False
+                break
+            p, called = pth.value
+            entered |= {q.split('.')[-1] for q in called if q.startswith('path.Path.')}
+            ln, fr = p.attrs.get('_length'), p.attrs.get('_lengths')
+            try:
+                good = ln is not None and to_rat(ln).equals(tot) and isinstance(fr, list) and len(fr) == 3 and \
+                    all(to_rat(fr[k]).equals(Rat.sym('LEN%d' % k) / tot) for k in range(3))
+            except Exception:
+                good = False
+            if not good:
+                ok = False
+                break
+        if ok:
+            found[name] = entered
+    return found, writers
+
+
+def _path_cache_tolerances(ctx, mdl, PathC, ensurers, kinds):
+    """an ensurer that takes tolerances must not accept a table computed with weaker ones"""
+    LC, EC, MC, E, M = [Rat.sym(x) for x in ('LCACHED', 'ECACHED', 'MCACHED', 'EREQ', 'MREQ')]
+    req = {'error': E, 'min_depth': M}
+    cached = {'error': EC, 'min_depth': MC}
+    done = 0
+    for name in sorted(ensurers):
+        fi = PathC.methods[name]
+        params = [p for p in fi.params() if p in kinds]
+        if not params:
+            continue
+        done += 1
+        seen = []
+
+        def th(it, name=name, params=params, seen=seen):
+            del seen[:]
+            p, segs = _sym_path(it, 3, length=None)
+            p.attrs['_length'] = LC
+            p.attrs['_lengths'] = [Rat.sym('FCACHED%d' % k) for k in range(3)]
+            p.attrs['_length_tol'] = (EC, MC)
+
+            def lh(it2, aa, kk):
+                seen.append(dict(kk))
+                return Rat.sym('LEN%d' % [i for i, x in enumerate(segs) if x is aa[0]][0])
+            it.call_hooks['path.Line.length'] = lh
+            it.call_method(p, name, **{q: req[q] for q in params})
+            return p, list(seen), it
+
+        def judge(v, params=params):
+            p, seen, it = v
+            probs = []
+            ln = p.attrs.get('_length')
+            kept = ln is not None and _mentions_symbol(ln, 'LCACHED')
+            if kept:
+                for q in params:
+                    sg = path_sign(it, cached[q] - req[q])
+                    want = frozenset('-0') if kinds.get(q) == 'tolerance' else frozenset('0+')
+                    if not sg <= want:
+                        probs.append('the cached table is accepted without knowing that its %s is %s the requested one' % (
+                            q, 'at most' if kinds.get(q) == 'tolerance' else 'at least'))
+            else:
+                for kw in seen:
+                    for q in params:
+                        if not (q in kw and to_rat(kw[q]).equals(req[q])):
+                            probs.append('segment lengths are re-measured without the requested %s' % q)
+                tol = p.attrs.get('_length_tol')
+                if not (isinstance(tol, tuple) and len(tol) == 2 and to_rat(tol[0]).equals(E) and to_rat(tol[1]).equals(M)) and set(params) == {'error', 'min_depth'}:
+                    probs.append('the rebuilt table does not record the tolerances it was measured with (_length_tol = %r)' % (tol,))
+            return not probs, '; '.join(sorted(set(probs)))
+        Obligation(ctx, 'R16.3').run(fi, 'Path table computed with (ECACHED, MCACHED), requested (EREQ, MREQ)', th, judge)
+    if not done:
+        ctx.record('R16.3', 'path.Path', 'no method that fills the length table takes tolerances', True, nontrivial=False, where='svgpathtools/path.py')
+
+
+def _semantic_readers(ctx, mdl, PathC):
+    """readers of the length table, from the invalidated state with garbage left in _lengths: the result must not depend on the garbage"""
+    Tt, T0, T1 = Rat.sym('T'), Rat.sym('TT0'), Rat.sym('TT1')
+    readers = [('point', (Tt,)), ('T2t', (Tt,)), ('t2T', (1, Rat.sym('tloc'))), ('length', (T0, T1))]
+    for name, args in readers:
+        if name not in PathC.methods:
+            continue
+        fi = PathC.methods[name]
+
+        def th(it, name=name, args=args):
+            p, segs = _sym_path(it, 3, length='invalid')
+            from svtstatic import poly as _p
+            _p.POSITIVE.update({'LEN0', 'LEN1', 'LEN2'})
+            it.call_hooks['path.Line.length'] = lambda it2, aa, kk: Rat.sym('LEN%d' % [i for i, x in enumerate(segs) if x is aa[0]][0]) * \
+                (to_rat(kk.get('t1', aa[2] if len(aa) > 2 else 1)) - to_rat(kk.get('t0', aa[1] if len(aa) > 1 else 0)))
+            it.call_hooks['path.Line.point'] = lambda it2, aa, kk: ('pt', [i for i, x in enumerate(segs) if x is aa[0]][0], aa[1])
+            return it.call_method(p, name, *args)
+
+        def judge(v):
+            ok = not _mentions_symbol(v, 'GSTALE')
+            return ok, '' if ok else 'the result depends on the stale fractions left in _lengths after an invalidation'
+        Obligation(ctx, 'R16.4').run(fi, '%s() on an invalidated path with garbage in _lengths' % name, th, judge,
+                                     allowed_raises=('AssertionError', 'ValueError', 'RuntimeError', 'Exception'),   # "cannot happen" exits of the scans (infeasible label paths)
+                                     opts={'presign': [(Tt, '+'), (Tt - 1, '-'), (T0, '+'), (T1 - 1, '-'), (T1 - T0, '+'), (T0 - 1, '-'), (T1, '+'),
+                                                       (Rat.sym('tloc'), '+'), (Rat.sym('tloc') - 1, '-')]})
